@@ -295,7 +295,11 @@ class CallListerVisitor(ast.NodeVisitor):
                 return ret.get_untainted()
             return ret
         finally:
-            if not isinstance(name, Unknown) and not (ro and isinstance(name, ast.Name)):
+            if isinstance(name, ast.Attribute) \
+                    and not isinstance(name.value, ast.Name):
+                # its object was visited when it was resolved just above
+                pass
+            elif not isinstance(name, Unknown) and not (ro and isinstance(name, ast.Name)):
                 self.visit(name)
 
     def bind_name(self, name, node):
